@@ -138,7 +138,7 @@ theorem readStoredFrame_build (x : PMInput) (o : PMObject) (h : build x = .ok o)
   unfold readStoredFrame
   have hel' : (o.element != "PixelData") = false := by simp [hel]
   rw [hel']
-  simp only [Bool.false_eq_true, ↓reduceIte, hn, hf, hr, hc, hi]
+  simp only [Bool.false_eq_true, ↓reduceIte, hn, hf, hr, hc, hi, not_true_eq_false]
   unfold PMObject.pixelData
   rw [hfr]
   have hlen : ∀ g ∈ (loopNest x.n x.m (plane x)).map List.flatten, g.length = x.r * x.c * x.itemsize := by
@@ -167,11 +167,11 @@ theorem readStoredFrame_build (x : PMInput) (o : PMObject) (h : build x = .ok o)
   rw [this]
 
 /-- frames of a map stored in a float pixel data element cannot be read (as the code is) -/
-theorem readStoredFrame_float (o : PMObject) (hel : o.element ≠ "PixelData") (f : Nat) :
+theorem readStoredFrame_float (o : PMObject) (hel : o.element ≠ "PixelData") (f : Nat) (hf : f < o.numberOfFrames) :
     readStoredFrame o f = .error .attribute := by
   unfold readStoredFrame
   have : (o.element != "PixelData") = true := by simpa using hel
-  rw [this]; rfl
+  rw [this]; simp [hf]
 
 /-- the mapping list the reader finds for frame `f` -/
 theorem attachedMappings_build (x : PMInput) (o : PMObject) (h : build x = .ok o) (f : Nat) (hf : f < x.n * x.m) :
@@ -241,6 +241,8 @@ structure Admitted (x : PMInput) (attr : String) (ba bs hb pr : Int) : Prop wher
   rank : x.ndim = 2 ∨ x.ndim = 3 ∨ x.ndim = 4
   mappings_nonempty : x.nMappingLists ≠ 0
   layout : x.ndim = 4 ↔ x.nested = true
+  /-- Rows / Columns (VR US, not 0) can describe the planes -/
+  shape : 1 ≤ x.r ∧ x.r ≤ 65535 ∧ 1 ≤ x.c ∧ x.c ≤ 65535
   mapping_count : x.nMappingLists = x.m
   positions : x.nPositions = x.n
   dtype :
@@ -269,44 +271,47 @@ theorem admission_sound (x : PMInput) (t : Int) (attr : String) (ba bs hb pr : I
         · rename_i hlay
           split at h
           · cases h
-          · rename_i hcnt
+          · rename_i hshp
             split at h
             · cases h
-            · rename_i hpos
-              cases ht : pmPixelDataType x.dtypeKind x.dtypeName x.dtypeStr with
-              | error e => rw [ht] at h; simp at h
-              | ok t' =>
-                rw [ht] at h
-                simp only [] at h
-                have htype := (pmPixelDataType_spec _ _ _ _).mp ht
-                cases hl : pmPixelDataAttr.lookup t' with
-                | none => rw [hl] at h; simp at h
-                | some a =>
-                  rw [hl] at h
+            · rename_i hcnt
+              split at h
+              · cases h
+              · rename_i hpos
+                cases ht : pmPixelDataType x.dtypeKind x.dtypeName x.dtypeStr with
+                | error e => rw [ht] at h; simp at h
+                | ok t' =>
+                  rw [ht] at h
                   simp only [] at h
-                  have hattr := (lookup_attr _ _).mp hl
-                  cases hb' : pmBits t' (x.itemsize : Int) with
-                  | error e => rw [hb'] at h; simp at h
-                  | ok v =>
-                    obtain ⟨ba', bs', hb'', pr'⟩ := v
-                    rw [hb'] at h
-                    simp only [Except.ok.injEq, Prod.mk.injEq] at h
-                    obtain ⟨rfl, rfl, rfl, rfl, rfl, rfl⟩ := h
-                    have hbits := (pmBits_spec _ _ _ _ _ _).mp hb'
-                    refine ⟨hsyn.2, by omega, hne, ?_, by omega, by omega, ?_⟩
-                    · have hl' : (decide (x.ndim = 4) != x.nested) = false := by simpa using hlay
-                      constructor
-                      · intro h4; simpa [h4] using hl'
-                      · intro hn; simpa [hn] using hl'
-                    · rcases htype with ⟨hk, hn, rfl⟩ | ⟨hk, hn, rfl⟩ | ⟨hk, hn, rfl⟩ <;>
-                        rcases hattr with ⟨h1, rfl⟩ | ⟨h1, rfl⟩ | ⟨h1, rfl⟩ <;> (try omega) <;>
-                        rcases hbits with ⟨h2, rfl, rfl, rfl, rfl⟩ | ⟨h2, rfl, rfl, rfl, rfl⟩ | ⟨h2, rfl, rfl, rfl, rfl⟩ <;>
-                        (try omega) <;> simp [hk, hn]
+                  have htype := (pmPixelDataType_spec _ _ _ _).mp ht
+                  cases hl : pmPixelDataAttr.lookup t' with
+                  | none => rw [hl] at h; simp at h
+                  | some a =>
+                    rw [hl] at h
+                    simp only [] at h
+                    have hattr := (lookup_attr _ _).mp hl
+                    cases hb' : pmBits t' (x.itemsize : Int) with
+                    | error e => rw [hb'] at h; simp at h
+                    | ok v =>
+                      obtain ⟨ba', bs', hb'', pr'⟩ := v
+                      rw [hb'] at h
+                      simp only [Except.ok.injEq, Prod.mk.injEq] at h
+                      obtain ⟨rfl, rfl, rfl, rfl, rfl, rfl⟩ := h
+                      have hbits := (pmBits_spec _ _ _ _ _ _).mp hb'
+                      refine ⟨hsyn.2, by omega, hne, ?_, by omega, by omega, by omega, ?_⟩
+                      · have hl' : (decide (x.ndim = 4) != x.nested) = false := by simpa using hlay
+                        constructor
+                        · intro h4; simpa [h4] using hl'
+                        · intro hn; simpa [hn] using hl'
+                      · rcases htype with ⟨hk, hn, rfl⟩ | ⟨hk, hn, rfl⟩ | ⟨hk, hn, rfl⟩ <;>
+                          rcases hattr with ⟨h1, rfl⟩ | ⟨h1, rfl⟩ | ⟨h1, rfl⟩ <;> (try omega) <;>
+                          rcases hbits with ⟨h2, rfl, rfl, rfl, rfl⟩ | ⟨h2, rfl, rfl, rfl, rfl⟩ | ⟨h2, rfl, rfl, rfl, rfl⟩ <;>
+                          (try omega) <;> simp [hk, hn]
 
 
 theorem admission_complete (x : PMInput) (attr : String) (ba bs hb pr : Int) (h : Admitted x attr ba bs hb pr) :
     ∃ t, admission x = .ok (t, attr, ba, bs, hb, pr) := by
-  obtain ⟨hsyn, hrank, hne, hlay, hcnt, hpos, hdt⟩ := h
+  obtain ⟨hsyn, hrank, hne, hlay, hshp, hcnt, hpos, hdt⟩ := h
   have hs : pmSyntaxAdmitted x.ts x.dtypeKind = .ok 0 := (pmSyntaxAdmitted_spec _ _ _).mpr ⟨rfl, hsyn⟩
   have hl' : (decide (x.ndim = 4) != x.nested) = false := by
     by_cases h4 : x.ndim = 4
@@ -324,7 +329,7 @@ theorem admission_complete (x : PMInput) (attr : String) (ba bs hb pr : Int) (h 
     simp only [bind, Except.bind]
     rw [if_neg (by omega), if_neg hne, hl']
     simp only [Bool.false_eq_true, ↓reduceIte]
-    rw [if_neg (by omega), if_neg (by omega), ht]
+    rw [if_neg (by omega), if_neg (by omega), if_neg (by omega), ht]
     simp only [hl, hb']
   rcases hdt with ⟨hk, hs8, rfl, rfl, rfl, rfl, rfl⟩ | ⟨hk, hn, rfl, rfl, rfl, rfl, rfl⟩ | ⟨hk, hn, rfl, rfl, rfl, rfl, rfl⟩
   · exact ⟨1, key 1 ((pmPixelDataType_spec _ _ _ _).mpr (Or.inr (Or.inr ⟨hk, hs8, rfl⟩)))
